@@ -4,3 +4,5 @@ pub mod list;
 mod entity;
 mod node;
 mod pool;
+#[cfg(ishape_rust_itree_verif)]
+mod verif;
